@@ -170,6 +170,11 @@ Proof.
     apply IH. intro i. exact (H (S i)).
 Qed.
 
+Lemma leb_add1 n : (n <=? n + 1)%nat = true.
+Proof. apply Nat.leb_le. lia. Qed.
+Lemma ltb_add1 n : (n <? n + 1)%nat = true.
+Proof. apply Nat.ltb_lt. lia. Qed.
+
 Section Proofs.
 Variable page_size : N.
 Variable get_page : N -> gp.
@@ -411,7 +416,7 @@ Qed.
 
 (** * [read_locked] *)
 
-Notation read_locked := (read_locked page_size get_page).
+Notation read_locked := (read_locked page_size get_page true).
 
 Definition status_of (stop : option Z) : Z :=
   match stop with None => KDUMP_OK | Some st => st end.
@@ -424,7 +429,7 @@ Lemma read_exact a n buf :
     rr_status r = status_of (stop_of a (N.to_nat n)) /\
     open_pages (rr_events r) [] = [].
 Proof.
-  intros Hw Hl. unfold ReadModel.read_locked.
+  intros Hw Hl. unfold ReadModel.read_locked. cbn [negb].
   pose proof ps_pos as Hpp.
   destruct (N.eqb_spec page_size 0) as [Hz|_]; [lia|]. rewrite andb_false_r.
   destruct (read_loop_pw (S (N.to_nat n)) a n buf 0 []) as (pages & ->); try lia.
@@ -582,15 +587,17 @@ Proof.
         eauto.
 Qed.
 
-Notation string_loop := (string_loop page_size get_page).
+Notation string_loop r := (ReadModel.string_loop page_size get_page r false).
+
+Ltac caps H := cbn [negb orb andb] in H; rewrite ?leb_add1, ?ltb_add1 in H; cbn [negb] in H.
 
 Lemma in_tl {A} (x : A) l : In x (tl l) -> In x l.
 Proof. destruct l; simpl; auto. Qed.
 
 (** the loop of [read_string_locked] computes [cstring_pw], unless a realloc fails *)
-Lemma string_loop_pw repaired fuel : forall addr str oracle next evs r,
+Lemma string_loop_pw repaired fuel : forall addr str cap oracle next evs r,
   addr + N.of_nat fuel * page_size <= W ->
-  string_loop repaired fuel addr str oracle next evs = SDone r ->
+  string_loop repaired fuel addr str cap oracle next evs = SDone r ->
   let acc := match str with Some (_, s) => s | None => [] end in
   (sr_status r = KDUMP_OK ->
      exists id s, sr_string r = Some (id, acc ++ s) /\ cstring_pw fuel addr = inl s) /\
@@ -599,7 +606,7 @@ Lemma string_loop_pw repaired fuel : forall addr str oracle next evs r,
      (cstring_pw fuel addr = inr (Some (sr_status r)) \/
       (sr_status r = KDUMP_ERR_SYSTEM /\ In false oracle))).
 Proof.
-  induction fuel as [|fuel IH]; intros addr str oracle next evs r Hw Hrun; [discriminate|].
+  induction fuel as [|fuel IH]; intros addr str cap oracle next evs r Hw Hrun; [discriminate|].
   cbn zeta. cbn [ReadModel.string_loop ReadSpec.cstring_pw] in *.
   pose proof ps_pos as Hpp.
   rewrite Nat2N.inj_succ, N.mul_succ_l in Hw.
@@ -618,19 +625,21 @@ Proof.
     now rewrite firstn_all2 by lia. }
   rewrite Hrd in Hrun.
   set (chunk := skipn (N.to_nat off) d) in *.
+  cbn [negb orb] in Hrun.
   destruct (match oracle with b :: _ => b | [] => true end) eqn:Eok; cbn [negb] in Hrun.
   2:{ inversion Hrun as [Hr]. cbn [sr_status sr_string].
       split; [discriminate|]. intros _. split; [reflexivity|]. right. split; [reflexivity|].
       destruct oracle as [|b o]; [discriminate|]. subst b. now left. }
+  caps Hrun.
   destruct (memchr0 chunk) as [i|] eqn:Emc.
-  - inversion Hrun as [Hr]. cbn [sr_status sr_string]. split; [|intro H; contradiction].
+  - caps Hrun. inversion Hrun as [Hr]. cbn [sr_status sr_string]. split; [|intro H; contradiction].
     intros _. eexists _, _. split; reflexivity.
   - destruct fuel as [|fuel']; [discriminate|].
     pose proof Hw as Hw2. rewrite Nat2N.inj_succ, N.mul_succ_l in Hw2.
     assert (Hlt : addr + (page_size - off) < W) by lia.
     rewrite (wadd_small _ _ Hlt) in Hrun.
     assert (Hw3 : addr + (page_size - off) + N.of_nat (S fuel') * page_size <= W) by lia.
-    destruct (IH _ _ _ _ _ _ Hw3 Hrun) as [IH1 IH2]. cbn zeta in IH1, IH2.
+    destruct (IH _ _ _ _ _ _ _ Hw3 Hrun) as [IH1 IH2]. cbn zeta in IH1, IH2.
     split.
     + intro H0. destruct (IH1 H0) as (id & s & Hs & Hc).
       exists id, (chunk ++ s). rewrite Hs, Hc. split; [|reflexivity].
@@ -642,12 +651,12 @@ Qed.
 
 (** every exit gives back what it allocated (repaired code), except the
     string it returns *)
-Lemma string_no_leak fuel : forall addr str oracle next evs r,
-  string_loop true fuel addr str oracle next evs = SDone r ->
+Lemma string_no_leak fuel : forall addr str cap oracle next evs r,
+  string_loop true fuel addr str cap oracle next evs = SDone r ->
   outstanding evs [] = ids str ->
   outstanding (sr_events r) [] = ids (sr_string r).
 Proof.
-  induction fuel as [|fuel IH]; intros addr str oracle next evs r Hrun Hev; [discriminate|].
+  induction fuel as [|fuel IH]; intros addr str cap oracle next evs r Hrun Hev; [discriminate|].
   cbn [ReadModel.string_loop] in Hrun.
   destruct (get_page _) as [d|st].
   2:{ inversion Hrun as [Hr]. cbn [sr_events sr_string ids].
@@ -655,6 +664,7 @@ Proof.
       rewrite outstanding_app, Hev. simpl. apply remove_self. }
   destruct (page_size =? 0); [discriminate|].
   destruct (rd d _ _) as [chunk|]; [|discriminate].
+  cbn [negb orb] in Hrun.
   destruct (match oracle with b :: _ => b | [] => true end); cbn [negb] in Hrun.
   2:{ inversion Hrun as [Hr]. cbn [sr_events sr_string ids].
       destruct str as [[id s]|]; rewrite !outstanding_app, Hev; simpl; [apply remove_self|reflexivity]. }
@@ -665,17 +675,18 @@ Proof.
               end) ++ [EvPut (page_align addr)]) [] = [next]).
   { destruct str as [[id s]|]; rewrite !outstanding_app, Hev; simpl;
       [destruct (Nat.eq_dec id id); [reflexivity|contradiction]|reflexivity]. }
+  caps Hrun.
   destruct (memchr0 chunk).
-  - inversion Hrun as [Hr]. cbn [sr_events sr_string ids]. exact Hev3.
+  - caps Hrun. inversion Hrun as [Hr]. cbn [sr_events sr_string ids]. exact Hev3.
   - eapply IH; [exact Hrun|]. exact Hev3.
 Qed.
 
 (** every page reference taken is given back before returning *)
-Lemma string_pages_balanced repaired fuel : forall addr str oracle next evs r,
-  string_loop repaired fuel addr str oracle next evs = SDone r ->
+Lemma string_pages_balanced repaired fuel : forall addr str cap oracle next evs r,
+  string_loop repaired fuel addr str cap oracle next evs = SDone r ->
   open_pages evs [] = [] -> open_pages (sr_events r) [] = [].
 Proof.
-  induction fuel as [|fuel IH]; intros addr str oracle next evs r Hrun Hev; [discriminate|].
+  induction fuel as [|fuel IH]; intros addr str cap oracle next evs r Hrun Hev; [discriminate|].
   cbn [ReadModel.string_loop] in Hrun.
   destruct (get_page _) as [d|st].
   2:{ inversion Hrun as [Hr]. cbn [sr_events].
@@ -686,6 +697,7 @@ Proof.
   set (pa := page_align addr) in *.
   assert (Hself : remove N.eq_dec pa [pa] = []).
   { simpl. destruct (N.eq_dec pa pa); [reflexivity|contradiction]. }
+  cbn [negb orb] in Hrun.
   destruct (match oracle with b :: _ => b | [] => true end); cbn [negb] in Hrun.
   2:{ inversion Hrun as [Hr]. cbn [sr_events].
       destruct str as [[id s]|]; rewrite !open_pages_app, Hev; simpl; exact Hself. }
@@ -695,8 +707,9 @@ Proof.
               | None => (evs ++ [EvGet pa]) ++ [EvAlloc next]
               end) ++ [EvPut pa]) [] = []).
   { destruct str as [[id s]|]; rewrite !open_pages_app, Hev; simpl; exact Hself. }
+  caps Hrun.
   destruct (memchr0 chunk).
-  - inversion Hrun as [Hr]. cbn [sr_events]. exact Hev3.
+  - caps Hrun. inversion Hrun as [Hr]. cbn [sr_events]. exact Hev3.
   - eapply IH; [exact Hrun|]. exact Hev3.
 Qed.
 
@@ -764,14 +777,14 @@ Proof.
     + lia.
 Qed.
 
-Lemma string_loop_complete repaired fuel : forall addr str oracle next evs s,
+Lemma string_loop_complete repaired fuel : forall addr str cap oracle next evs s,
   addr + N.of_nat fuel * page_size <= W ->
   cstring_pw fuel addr = inl s -> ~ In false oracle ->
-  exists r, string_loop repaired fuel addr str oracle next evs = SDone r /\
+  exists r, string_loop repaired fuel addr str cap oracle next evs = SDone r /\
     sr_status r = KDUMP_OK /\
     exists id, sr_string r = Some (id, (match str with Some (_, o) => o | None => [] end) ++ s).
 Proof.
-  induction fuel as [|fuel IH]; intros addr str oracle next evs s Hw Hc Hor; [discriminate|].
+  induction fuel as [|fuel IH]; intros addr str cap oracle next evs s Hw Hc Hor; [discriminate|].
   cbn [ReadModel.string_loop ReadSpec.cstring_pw] in *.
   pose proof ps_pos as Hpp.
   pose proof Hw as Hw2. rewrite Nat2N.inj_succ, N.mul_succ_l in Hw2.
@@ -788,7 +801,7 @@ Proof.
   rewrite Hrd. set (chunk := skipn (N.to_nat off) d) in *.
   assert (Eok : match oracle with b :: _ => b | [] => true end = true).
   { destruct oracle as [|[|] o]; auto. exfalso. apply Hor. now left. }
-  rewrite Eok. cbn [negb].
+  cbn [negb orb]. rewrite Eok. cbn [negb andb]. rewrite ?leb_add1, ?ltb_add1. cbn [negb].
   destruct (memchr0 chunk) as [i|] eqn:Emc.
   - inversion Hc as [Hs]. eexists. split; [reflexivity|]. cbn [sr_status sr_string].
     split; [reflexivity|]. eexists. reflexivity.
@@ -802,6 +815,7 @@ Proof.
     assert (Hor' : ~ In false (tl oracle)) by (intro Hi; apply Hor; now apply in_tl).
     destruct (IH (addr + (page_size - off))
                  (Some (next, (match str with Some (_, o) => o | None => [] end) ++ chunk))
+                 (length (match str with Some (_, o) => o | None => [] end) + length chunk + 1)%nat
                  (tl oracle) (S next)
                  ((match str with
                    | Some (id, _) => (evs ++ [EvGet pa]) ++ [EvFree id; EvAlloc next]
@@ -907,7 +921,7 @@ Lemma read_zero a buf :
   RDone {| rr_status := KDUMP_OK; rr_plength := 0; rr_buffer := buf; rr_events := [] |}.
 Proof. reflexivity. Qed.
 
-Notation read_string_locked := (read_string_locked page_size get_page).
+Notation read_string_locked r := (ReadModel.read_string_locked page_size get_page r false true).
 
 Lemma string_exact repaired fuel a oracle r :
   a + N.of_nat fuel * page_size <= W ->
@@ -918,10 +932,10 @@ Lemma string_exact repaired fuel a oracle r :
      ((exists k, string_blocked a k (sr_status r)) \/
       (sr_status r = KDUMP_ERR_SYSTEM /\ In false oracle))).
 Proof.
-  intros Hw Hr. unfold ReadModel.read_string_locked in Hr.
+  intros Hw Hr. unfold ReadModel.read_string_locked in Hr. cbn [negb] in Hr.
   pose proof ps_pos as Hpp.
   destruct (N.eqb_spec page_size 0) as [Hz|_]; [lia|].
-  destruct (string_loop_pw _ _ _ _ _ _ _ _ Hw Hr) as [H1 H2]. cbn zeta in H1, H2. split.
+  destruct (string_loop_pw _ _ _ _ _ _ _ _ _ Hw Hr) as [H1 H2]. cbn zeta in H1, H2. split.
   - intro H0. destruct (H1 H0) as (id & s & Hs & Hc). exists id, s. split; [exact Hs|].
     now apply (proj1 (cstring_pw_sound fuel a)).
   - intro Hn. destruct (H2 Hn) as [Hnone [Hc|Hoom]]; (split; [exact Hnone|]).
@@ -937,9 +951,9 @@ Lemma string_found repaired fuel a oracle s :
 Proof.
   intros Hw Hf Hs Hor.
   pose proof (cstring_pw_complete fuel a s Hs Hf) as Hc.
-  destruct (string_loop_complete repaired fuel a None oracle 0%nat [] s Hw Hc Hor)
+  destruct (string_loop_complete repaired fuel a None 0%nat oracle 0%nat [] s Hw Hc Hor)
     as (r & Hr & Hst & id & Hstr).
-  exists r, id. unfold ReadModel.read_string_locked.
+  exists r, id. unfold ReadModel.read_string_locked. cbn [negb].
   pose proof ps_pos as Hpp.
   destruct (N.eqb_spec page_size 0) as [Hz|_]; [lia|]. auto.
 Qed.
@@ -948,18 +962,54 @@ Lemma string_no_leak_top fuel a oracle r :
   read_string_locked true fuel a oracle = SDone r ->
   outstanding (sr_events r) [] = ids (sr_string r).
 Proof.
-  unfold ReadModel.read_string_locked. destruct (page_size =? 0).
+  unfold ReadModel.read_string_locked. cbn [negb]. destruct (page_size =? 0).
   - intro Hr. inversion Hr. reflexivity.
-  - intro Hr. now apply (string_no_leak _ _ _ _ _ _ _ Hr).
+  - intro Hr. now apply (string_no_leak _ _ _ _ _ _ _ _ Hr).
 Qed.
 
 Lemma string_balanced_top repaired fuel a oracle r :
   read_string_locked repaired fuel a oracle = SDone r ->
   open_pages (sr_events r) [] = [].
 Proof.
-  unfold ReadModel.read_string_locked. destruct (page_size =? 0).
+  unfold ReadModel.read_string_locked. cbn [negb]. destruct (page_size =? 0).
   - intro Hr. inversion Hr. reflexivity.
-  - intro Hr. now apply (string_pages_balanced _ _ _ _ _ _ _ _ Hr).
+  - intro Hr. now apply (string_pages_balanced _ _ _ _ _ _ _ _ _ Hr).
 Qed.
+
+(** ** Allocation bookkeeping: the terminator and every copy stay inside the
+    block last granted by realloc *)
+Lemma string_no_overrun repaired fuel : forall addr str cap oracle next evs,
+  string_loop repaired fuel addr str cap oracle next evs <> SOverrun.
+Proof.
+  induction fuel as [|fuel IH]; intros addr str cap oracle next evs; [discriminate|].
+  cbn [ReadModel.string_loop].
+  destruct (get_page _) as [d|st]; [|discriminate].
+  destruct (page_size =? 0); [discriminate|].
+  destruct (rd d _ _) as [chunk|]; [|discriminate].
+  cbn [negb orb].
+  destruct (match oracle with b :: _ => b | [] => true end); cbn [negb]; [|discriminate].
+  cbn [andb]. rewrite leb_add1. cbn [negb].
+  destruct (memchr0 chunk).
+  - rewrite ltb_add1. discriminate.
+  - apply IH.
+Qed.
+
+Lemma string_buffer_fits repaired fuel a oracle :
+  read_string_locked repaired fuel a oracle <> SOverrun.
+Proof.
+  unfold ReadModel.read_string_locked. cbn [negb]. destruct (page_size =? 0); [discriminate|].
+  apply string_no_overrun.
+Qed.
+
+(** ** An address space outside the enumeration *)
+Lemma read_invalid_as fuel a n buf :
+  ReadModel.read_locked page_size get_page false fuel a n buf =
+  RDone {| rr_status := KDUMP_ERR_INVALID; rr_plength := 0; rr_buffer := buf; rr_events := [] |}.
+Proof. reflexivity. Qed.
+
+Lemma string_invalid_as repaired lazy fuel a oracle :
+  ReadModel.read_string_locked page_size get_page repaired lazy false fuel a oracle =
+  SDone {| sr_status := KDUMP_ERR_INVALID; sr_string := None; sr_events := [] |}.
+Proof. reflexivity. Qed.
 
 End Proofs.
